@@ -469,7 +469,7 @@ class _Block:
         _, sid, path, T = r
         b.wr.add(sid)
         if b.tr.is_struct(T):
-          if not blocking: raise Outside('<<= to a struct')
+          if not blocking and path: raise Outside('<<= to a field of a struct')
           e, k = b.expr_k(st.value)
           if not (isinstance(k, tuple) and k[0] == 'struct' and k[1] is T): raise Outside('struct target with a non-identical source type')
         else:
